@@ -22,7 +22,69 @@ def new_interp(repo, **kw):
         I_.dumps.append(data)
         return SegStr.field('yaml#%d' % len(I_.dumps), None, 'text')
     I.native['yaml.dump'] = dump
+
+    def path(I_, fr, args, kwargs, n):
+        parts = [I_.plain(a_) for a_ in args]
+        if kwargs or not parts or not all(isinstance(p_, str) for p_ in parts):
+            raise Unsupported('pathlib.Path(%s)' % ', '.join(show(a_, 30) for a_ in args), n)
+        import pathlib
+        return path_stub(pathlib.PurePosixPath(*parts))
+    I.native['pathlib.Path'] = path
     return I
+
+
+def path_stub(pure):
+    """a pathlib.Path of a concrete name as the writers use it (a name to open, a name with another suffix): the
+    lexical members are those of the real class on the concrete name, every member that would touch the file system is
+    outside the interpreted fragment"""
+    import pathlib
+    o = Obj('path:%s' % pure, closed=True)
+    o.isa.update({'Path', 'PurePath', 'PathLike'})
+    o.pure = pure
+    for a_ in ('name', 'suffix', 'stem', 'root', 'drive', 'anchor'):
+        o.attrs[a_] = getattr(pure, a_)
+    o.attrs['parts'] = ListV(list(pure.parts))
+    o.attrs['suffixes'] = ListV(list(pure.suffixes))
+    o.attrs['parent'] = o if pure.parent == pure else path_stub(pure.parent)
+
+    def text_arg(I_, v_):
+        t_ = I_.plain(v_)
+        if not isinstance(t_, str):
+            raise Unsupported('pathlib.Path method with a symbolic argument')
+        return t_
+    o.opaque_methods['with_suffix'] = lambda I_, ob, a, k: path_stub(pure.with_suffix(text_arg(I_, (a + list(k.values()))[0])))
+    o.opaque_methods['with_name'] = lambda I_, ob, a, k: path_stub(pure.with_name(text_arg(I_, (a + list(k.values()))[0])))
+    o.opaque_methods['joinpath'] = lambda I_, ob, a, k: path_stub(pure.joinpath(*[text_arg(I_, x_) for x_ in a]))
+    o.opaque_methods['as_posix'] = lambda I_, ob, a, k: pure.as_posix()
+    o.opaque_methods['__str__'] = lambda I_, ob, a, k: str(pure)
+    o.opaque_methods['__fspath__'] = lambda I_, ob, a, k: str(pure)
+    for nm_ in set(dir(pathlib.Path)) | set(dir(pathlib.PurePosixPath)):
+        if nm_ in o.attrs or nm_ in o.opaque_methods or (nm_.startswith('_') and not nm_.startswith('__')):
+            continue
+        if nm_ in ('__class__', '__dict__', '__doc__', '__module__', '__init__', '__new__', '__slots__'):
+            continue
+
+        def refuse(I_, ob, a, k, nm_=nm_):
+            raise Unsupported('pathlib.Path.%s (no model in the C07 fixture)' % nm_)
+        o.opaque_methods[nm_] = refuse
+    return o
+
+
+def seg_equal(I, a, b):
+    """two abstract texts are the same text: the same literal pieces and the same printed values in the same format"""
+    sa, sb = I.seg(a).segs, I.seg(b).segs
+    if len(sa) != len(sb):
+        return False
+    for x, y in zip(sa, sb):
+        if x.kind != y.kind:
+            return False
+        if x.kind == 'lit':
+            if x.text != y.text:
+                return False
+        elif not ((x.value is y.value or same(x.value, y.value)) and x.cls == y.cls and (x.spec or '') == (y.spec or '')
+                  and x.width == y.width):
+            return False
+    return True
 
 
 def numpy_scalar():
@@ -682,6 +744,8 @@ def units_header(run, repo):
                                                                           dict(chosen), None)
             out = I.call_function(m, fn, [], {'units': u})
             got = None
+            # what the file must declare is fixed by the writer and the chosen system, whatever the writer returns
+            want = dict(chosen) if writer == 'write_cti' else {yaml_key.get(k_, k_): v_ for k_, v_ in chosen.items()}
             if writer == 'write_cti' and isinstance(out, (str, SegStr)) and I.seg(out).is_literal():
                 txt = I.seg(out).literal()
                 i_ = txt.find('units(')
@@ -689,12 +753,10 @@ def units_header(run, repo):
                 if i_ >= 0 and j_ > i_ and txt.count('units(') == 1:
                     pairs = re.findall(r'(\w+)\s*=\s*"([^"]*)"', txt[i_ + 6:j_])
                     got = dict(pairs) if len(pairs) == len(set(k_ for k_, _v in pairs)) else None
-                want = dict(chosen)
             elif writer == 'write_thermo_yaml' and not isinstance(out, Raised):
                 secs = [d_.d['units'] for d_ in I.dumps if isinstance(d_, DictV) and list(d_.d) == ['units']]
                 if len(secs) == 1 and isinstance(secs[0], DictV):
                     got = {k_: I.plain(v_) for k_, v_ in secs[0].d.items()}
-                want = {yaml_key.get(k_, k_): v_ for k_, v_ in chosen.items()}
             run.check(got == want, 'DATAFLOW.units', 'io.omkm.' + writer, 'unit system declared [%s]' % given_as,
                       '%s(units=<%s> %s) declares %s' % (writer, given_as, chosen,
                                                          got if got is not None else show(out, 120)), m, fn,
